@@ -612,7 +612,9 @@ fn reply(mbx: u16) -> impl Strategy<Value = Vec<u8>> {
         0u8..9,
         payload,
         // mailbox length field
-        prop_oneof![5 => Just(None), 3 => prop::sample::select(vec![0u16, 1, 2, 3, 4, 5, 6, 7, 8, 9, 10, 11, 12, 0x7fff, 0xfffe, 0xffff]).prop_map(Some), 1 => any::<u16>().prop_map(Some), 1 => (0u16..40).prop_map(Some)],
+        prop_oneof![5 => Just(None), 3 => prop::sample::select(vec![0u16, 1, 2, 3, 4, 5, 6, 7, 8, 9, 10, 11, 12, 0x7fff, 0xfffe, 0xffff]).prop_map(Some), 1 => any::<u16>().prop_map(Some), 1 => (0u16..40).prop_map(Some),
+            // just beyond what the mailbox can hold
+            1 => (0u16..12).prop_map(move |k| Some(mbx.saturating_sub(6) + k))],
         // mailbox type nibble, counter
         (prop_oneof![8 => Just(3u8), 1 => 0u8..16], 0u8..8),
         // CoE service nibble
@@ -773,7 +775,7 @@ pub fn run_c16(case: &C16Case, info: &mut CaseInfo) -> Result<(), Fail> {
     let c = case.clone();
     let net2 = net.clone();
 
-    let res: Result<Result<String, Error>, simexec::SimError> = simexec::run(&net, &cfg, |md| {
+    let res: Result<Result<Option<Vec<u8>>, Error>, simexec::SimError> = simexec::run(&net, &cfg, |md| {
         Box::pin(async move {
             let group = md.init_single_group::<2, 8>(|| 0).await?;
             let sd = group.subdevice(md, 0)?;
@@ -785,32 +787,35 @@ pub fn run_c16(case: &C16Case, info: &mut CaseInfo) -> Result<(), Fail> {
                 n.devices[0].endless = c.endless.clone();
             }
 
-            let out: Result<String, Error> = match c.entry {
-                Entry::ReadU8 => sd.sdo_read::<u8>(OBJ, 1).await.map(|v| format!("{v:?}")),
-                Entry::ReadU32 => sd.sdo_read::<u32>(OBJ, 1).await.map(|v| format!("{v:?}")),
-                Entry::ReadU64 => sd.sdo_read::<u64>(OBJ, 1).await.map(|v| format!("{v:?}")),
-                Entry::ReadArr(n) => with_n!(n, N => sd.sdo_read::<[u8; N]>(OBJ, 1).await.map(|v| hex(&v))),
-                Entry::ReadStr(n) => with_n!(n, N => sd.sdo_read::<heapless::String<N>>(OBJ, 1).await.map(|v| format!("{v:?}"))),
-                Entry::ReadVec(n) => with_n!(n, N => sd.sdo_read::<heapless::Vec<u8, N>>(OBJ, 1).await.map(|v| hex(&v))),
+            net2.borrow_mut().devices[0].stats.replies_served.clear();
+
+            // value bytes of a successful read (None for calls that return no device data)
+            let out: Result<Option<Vec<u8>>, Error> = match c.entry {
+                Entry::ReadU8 => sd.sdo_read::<u8>(OBJ, 1).await.map(|v| Some(v.to_le_bytes().to_vec())),
+                Entry::ReadU32 => sd.sdo_read::<u32>(OBJ, 1).await.map(|v| Some(v.to_le_bytes().to_vec())),
+                Entry::ReadU64 => sd.sdo_read::<u64>(OBJ, 1).await.map(|v| Some(v.to_le_bytes().to_vec())),
+                Entry::ReadArr(n) => with_n!(n, N => sd.sdo_read::<[u8; N]>(OBJ, 1).await.map(|v| Some(v.to_vec()))),
+                Entry::ReadStr(n) => with_n!(n, N => sd.sdo_read::<heapless::String<N>>(OBJ, 1).await.map(|v| Some(v.as_bytes().to_vec()))),
+                Entry::ReadVec(n) => with_n!(n, N => sd.sdo_read::<heapless::Vec<u8, N>>(OBJ, 1).await.map(|v| Some(v.to_vec()))),
                 Entry::Write(len) => match len {
                     1 => sd.sdo_write(OBJ, 1, 0x11u8).await,
                     2 => sd.sdo_write(OBJ, 1, 0x2211u16).await,
                     3 => sd.sdo_write(OBJ, 1, [1u8, 2, 3]).await,
                     _ => sd.sdo_write(OBJ, 1, 0x4433_2211u32).await,
                 }
-                .map(|_| String::new()),
+                .map(|_| None),
                 Entry::ReadArray { elem, max } => match (elem, max) {
-                    (1, 1) => sd.sdo_read_array::<u8, 1>(OBJ).await.map(|v| format!("{v:?}")),
-                    (1, 4) => sd.sdo_read_array::<u8, 4>(OBJ).await.map(|v| format!("{v:?}")),
-                    (1, _) => sd.sdo_read_array::<u8, 8>(OBJ).await.map(|v| format!("{v:?}")),
-                    (2, 1) => sd.sdo_read_array::<u16, 1>(OBJ).await.map(|v| format!("{v:?}")),
-                    (2, 4) => sd.sdo_read_array::<u16, 4>(OBJ).await.map(|v| format!("{v:?}")),
-                    (2, _) => sd.sdo_read_array::<u16, 8>(OBJ).await.map(|v| format!("{v:?}")),
-                    (_, 1) => sd.sdo_read_array::<u32, 1>(OBJ).await.map(|v| format!("{v:?}")),
-                    (_, 4) => sd.sdo_read_array::<u32, 4>(OBJ).await.map(|v| format!("{v:?}")),
-                    (_, _) => sd.sdo_read_array::<u32, 8>(OBJ).await.map(|v| format!("{v:?}")),
+                    (1, 1) => sd.sdo_read_array::<u8, 1>(OBJ).await.map(|v| Some(v.iter().flat_map(|x| x.to_le_bytes()).collect())),
+                    (1, 4) => sd.sdo_read_array::<u8, 4>(OBJ).await.map(|v| Some(v.iter().flat_map(|x| x.to_le_bytes()).collect())),
+                    (1, _) => sd.sdo_read_array::<u8, 8>(OBJ).await.map(|v| Some(v.iter().flat_map(|x| x.to_le_bytes()).collect())),
+                    (2, 1) => sd.sdo_read_array::<u16, 1>(OBJ).await.map(|v| Some(v.iter().flat_map(|x| x.to_le_bytes()).collect())),
+                    (2, 4) => sd.sdo_read_array::<u16, 4>(OBJ).await.map(|v| Some(v.iter().flat_map(|x| x.to_le_bytes()).collect())),
+                    (2, _) => sd.sdo_read_array::<u16, 8>(OBJ).await.map(|v| Some(v.iter().flat_map(|x| x.to_le_bytes()).collect())),
+                    (_, 1) => sd.sdo_read_array::<u32, 1>(OBJ).await.map(|v| Some(v.iter().flat_map(|x| x.to_le_bytes()).collect())),
+                    (_, 4) => sd.sdo_read_array::<u32, 4>(OBJ).await.map(|v| Some(v.iter().flat_map(|x| x.to_le_bytes()).collect())),
+                    (_, _) => sd.sdo_read_array::<u32, 8>(OBJ).await.map(|v| Some(v.iter().flat_map(|x| x.to_le_bytes()).collect())),
                 },
-                Entry::WriteArray(n) => sd.sdo_write_array(OBJ, (0..n).map(u16::from).collect::<Vec<u16>>()).await.map(|_| String::new()),
+                Entry::WriteArray(n) => sd.sdo_write_array(OBJ, (0..n).map(u16::from).collect::<Vec<u16>>()).await.map(|_| None),
                 Entry::InfoList(k) => {
                     use ethercrab::ObjectDescriptionListQuery as Q;
 
@@ -822,9 +827,9 @@ pub fn run_c16(case: &C16Case, info: &mut CaseInfo) -> Result<(), Fail> {
                         _ => Q::StartupParameters,
                     };
 
-                    sd.sdo_info_object_description_list(q).await.map(|v| format!("{:?}", v.map(|v| v.len())))
+                    sd.sdo_info_object_description_list(q).await.map(|v| v.map(|v| v.iter().flat_map(|x| x.to_le_bytes()).collect()))
                 }
-                Entry::InfoQuantities => sd.sdo_info_object_quantities().await.map(|v| format!("{v:?}")),
+                Entry::InfoQuantities => sd.sdo_info_object_quantities().await.map(|_| None),
             };
 
             Ok::<_, Error>(out)
@@ -850,8 +855,61 @@ pub fn run_c16(case: &C16Case, info: &mut CaseInfo) -> Result<(), Fail> {
     }
 
     match res {
-        Ok(Ok(_)) => {
+        Ok(Ok(value)) => {
             info.label("returns-value");
+
+            // Every byte handed to the caller must come out of a reply mailbox: the value is a
+            // concatenation of pieces, each a contiguous part of one reply, replies in order
+            if let Some(v) = value {
+                let replies = net.borrow().devices[0].stats.replies_served.clone();
+
+                if !v.is_empty() && replies.len() < 64 {
+                    let mut reach = vec![false; v.len() + 1];
+
+                    reach[0] = true;
+
+                    for r in &replies {
+                        let mut next = reach.clone();
+
+                        for i in 0..v.len() {
+                            if !reach[i] {
+                                continue;
+                            }
+
+                            // longest match of v[i..] at every offset of r
+                            let mut best = 0;
+
+                            for s in 0..r.len() {
+                                let mut l = 0;
+
+                                while i + l < v.len() && s + l < r.len() && v[i + l] == r[s + l] {
+                                    l += 1;
+                                }
+
+                                best = best.max(l);
+                            }
+
+                            for j in i + 1..=i + best {
+                                next[j] = true;
+                            }
+                        }
+
+                        reach = next;
+                    }
+
+                    ensure!(
+                        reach[v.len()],
+                        "C16|value-not-from-response",
+                        "{:?} returned {} ({} bytes), which cannot be pieced together from the {} reply mailbox image(s) the device served (mailbox {} bytes): {}",
+                        case.entry,
+                        hex(&v),
+                        v.len(),
+                        replies.len(),
+                        case.mbx,
+                        replies.iter().map(|r| hex(r)).collect::<Vec<_>>().join(" | ")
+                    );
+                }
+            }
 
             Ok(())
         }
